@@ -16,7 +16,7 @@ def mkField (j : Json) : Field :=
 
 def mkOpts (j : Json) : Opts :=
   { immutable := bool! (fld j "immutable"), ignoreRequired := bool! (fld j "ignore_required"),
-    ignoreDeleteNonexistent := bool! (fld j "ignore_delete_nonexistent"),
+    ignoreDeleteNonexistent := bool! (fld j "ignore_delete_nonexistent"), override := bool! (fld j "override"),
     addition := match str! (fld j "addition") with
       | "forbid" => .forbid | "allow" => .allow | "typed" => .typed | _ => .ignore }
 
@@ -83,8 +83,11 @@ def outRes : Res String → List (String × Json)
 def handle (j : Json) : Json :=
   let dc := str! (fld j "base") == "dataclass"
   let lg := bool! (fld j "legacy")
-  let C : Cls := { fields := (arr! (fld j "fields")).map mkField, excluded := strs (fld j "excluded"),
-                   opts := mkOpts (fld j "opts") }
+  let C0 : Cls := { fields := (arr! (fld j "fields")).map mkField, excluded := strs (fld j "excluded"),
+                    opts := mkOpts (fld j "opts") }
+  -- the options of the context the instance was built in (null: built directly)
+  let enc : Option Opts := if isNull (fld j "enclosing") then none else some (mkOpts (fld j "enclosing"))
+  let C : Cls := if dc then dcInstanceCls C0 enc else instanceCls C0 enc
   let W := mkWorld j
   let s00 : State String := { data := mkMap (fld (fld j "init") "data"), attrs := mkMap (fld (fld j "init") "attrs") }
   let ops := (arr! (fld j "ops")).map mkOp
